@@ -168,9 +168,13 @@ def build(case):
     if xk == "frame":
         X = pd.DataFrame({"score": ss})
     yk = case.get("y_kind", "list")
-    y = ys if yk == "list" else np.asarray(ys) if yk == "ndarray" else pd.Series(ys)
+    # pandas objects may carry names that coincide with the optimizer's internal column names (score, label, ...)
+    y = ys if yk == "list" else np.asarray(ys) if yk == "ndarray" else pd.Series(ys, name=case.get("y_name"))
     sk = case.get("sf_container", "list")
-    sf = sfv if sk == "list" else np.asarray(sfv) if sk == "ndarray" else pd.Series(sfv)
+    if sk == "frame":
+        sf = pd.DataFrame({case.get("sf_name") or "sf": sfv})
+    else:
+        sf = sfv if sk == "list" else np.asarray(sfv) if sk == "ndarray" else pd.Series(sfv, name=case.get("sf_name"))
     return X, y, sf, gs, ys, ss
 
 
@@ -249,6 +253,8 @@ def structure_tags(case, to):
         tags.append("tie_pos_neg")
     if case.get("mode") in ("adjacent", "subnormal"):
         tags.append("adjacent_float_scores")
+    if case.get("sf_container") in ("series", "frame") and case.get("sf_name") in ("score", "label", "sensitive_feature"):
+        tags.append("feature_named_like_internal_column")
     interior = vertex = pign = flip_used = False
     try:
         for b in to.interpolated_thresholder_.interpolation_dict.values():
@@ -357,8 +363,10 @@ def to_case(draw, max_groups=5, max_rows=8, accuracy_bias=False):
     case = {"rows": [rows[i] for i in perm], "mode": mode}
     case.update(draw(config(accuracy_bias)))
     case["sf_kind"] = draw(st.sampled_from(sorted(SF_LABELS)))
-    case["sf_container"] = draw(st.sampled_from(["list", "ndarray", "series"]))
+    case["sf_container"] = draw(st.sampled_from(["list", "ndarray", "series", "series", "frame"]))
     case["y_kind"] = draw(st.sampled_from(["list", "ndarray", "series"]))
+    case["sf_name"] = draw(st.sampled_from([None, "s", "score", "label", "sensitive_feature", "score"]))
+    case["y_name"] = draw(st.sampled_from([None, "y", "label", "score"]))
     case["x_kind"] = draw(st.sampled_from(["ndarray", "frame"]))
     case["lp"] = draw(st.integers(0, 999)) % 10
     return case
